@@ -15,7 +15,7 @@ CLAIMS = {
          "Partial: retransmission scheduling, loss detection, multi-chunk reassembly, unordered reads and everything needing a Connection are outside the claim (DESIGN §4 C01)."),
  "C03": ("Absence of panic / overflow / out-of-bounds in decoders and peer-driven arithmetic kernels for all inputs in the enumerated structure classes, plus the stated post-conditions (error class, state unchanged on error).",
          "Partial: state-dependent panics inside Connection/Endpoint, CidState, payloads longer than the stated lengths are outside the claim (DESIGN §4 C03)."),
- "C04": ("The replay filter accepts every packet number at most once in any history (one-step induction from an arbitrary window state); reset-token / constant-time comparison equals byte equality for all inputs; every authenticated packet (Retry / Version Negotiation included) is counted by Connection::on_packet_authenticated; the peer's transport parameters are accepted exactly when the connection IDs they echo match the ones seen on the wire (Connection::handle_peer_params, all CID bytes symbolic); which keys authenticate a packet (current / previous / next key phase, 0-RTT; packet_crypto::decrypt_packet_body), that keys rotate exactly on a packet authenticated under the next keys (Connection::decrypt_packet), and what one rotation does (Connection::update_keys).",
+ "C04": ("The replay filter accepts every packet number at most once in any history (one-step induction from an arbitrary window state); reset-token / constant-time comparison equals byte equality for all inputs; every authenticated packet (Retry / Version Negotiation included) is counted by Connection::on_packet_authenticated; the peer's transport parameters are accepted exactly when the connection IDs they echo match the ones seen on the wire (Connection::handle_peer_params, all CID bytes symbolic); which keys authenticate a packet (current / previous / next key phase, 0-RTT; packet_crypto::decrypt_packet_body), that keys rotate exactly on a packet authenticated under the next keys (Connection::decrypt_packet), and what one rotation does (Connection::update_keys). The middle of Connection::handle_packet (slice from an arbitrary state): a packet reaches process_decrypted_packet only after decrypt_packet ran, never when the datagram is flagged as a stateless reset, and a numbered packet only after the duplicate filter of its own space was asked about exactly its number and answered `new`; the server's first Initial is recorded in the filter as well.",
          "Narrow: the order decrypt -> dedup -> process inside handle_packet, key-phase selection, Retry/VN acceptance and the first-Initial path are Connection code and NOT covered (DESIGN §4 C04, §5)."),
  "C05": ("Step cases of 'never exceed peer limits': write budget = min(limit, max_data - offset, source), connection write_limit, monotone MAX_DATA / MAX_STREAM_DATA / MAX_STREAMS under stale and reordered updates, for all 62-bit values.",
          "Partial: the wire-level sum over all streams, Streams::open (hash map) in E1, 0-RTT remembered limits are outside (DESIGN §4 C05)."),
@@ -29,16 +29,16 @@ CLAIMS = {
          "Narrow: routing tables (hash maps), CidState, generators are outside (DESIGN §4 C09)."),
  "C10": ("Encode/decode round-trips and decoder totality for varints (all values), packet numbers (whole window), connection IDs (all lengths), frame-type/ECN/stream-id packing, transport parameters and per-frame codecs within stated payload bounds.",
          "Bounds: payloads <= 4-8 bytes, structure (frame type, CID lengths, buffer length) enumerated concretely; HashedConnectionIdGenerator outside (DESIGN §4 C10)."),
- "C11": ("Send-half and Recv-half operations compared against the QUIC stream state table from every abstract state (Ready / DataSent{acked?} / ResetSent x stopped?; Recv{size?} / ResetRecvd x stopped?).",
+ "C11": ("Send-half and Recv-half operations compared against the QUIC stream state table from every abstract state (Ready / DataSent{acked?} / ResetSent x stopped?; Recv{size?} / ResetRecvd x stopped?). On the MIR of StreamsState: received_stop_sending queues Stopped exactly once per stopped stream with the peer's code; reset_acked frees the sending half exactly when it is in ResetSent; stream_freed / received_reset / Chunks::next as listed in DESIGN section 10.",
          "Partial: application events, stream-count release and Chunks need the stream hash maps (DESIGN §4 C11)."),
- "C12": ("Built-in controllers never report a window below two datagrams after any single event from any state satisfying the invariant; in-flight accounting insert/remove is an exact inverse; ACKs of skipped packet numbers are rejected; Connection::on_packet_acked removes exactly the acknowledged packet once; following a Retry discards the old Initial space before a new one is installed; poll_transmit starts an ack-eliciting non-probe datagram only below the congestion window (slices).",
+ "C12": ("Built-in controllers never report a window below two datagrams after any single event from any state satisfying the invariant; in-flight accounting insert/remove is an exact inverse; ACKs of skipped packet numbers are rejected; Connection::on_packet_acked removes exactly the acknowledged packet once; following a Retry discards the old Initial space before a new one is installed; poll_transmit starts an ack-eliciting non-probe datagram only below the congestion window (slices). One iteration of the loss scan in detect_lost_packets declares a packet lost exactly per RFC 9002 6.1 (sent >= loss_delay ago, or >= packet_threshold before the largest acknowledged) and records it exactly once.",
          "Partial: loss detection (detect_lost_packets' loops), discard paths other than Retry and pluggable controllers are outside (DESIGN §4 C12)."),
  "C13": ("MTU discovery as an inductive invariant: from EVERY state satisfying the representation invariant, one step of poll_transmit / on_acked / on_probe_lost / peer-limit reception / black-hole detection keeps probes within peer and configured limits, raises the estimate only on an acked probe of exactly that size, never drops it below min(min_mtu, peer limit), keeps at most one probe in flight and makes the search terminate; the peer's max_udp_payload_size reaches MTU discovery saturated to u16 (set_peer_params, migrate); DATAGRAM frames are written and admitted only within the current MTU (e2_dgram_write, e2_datagrams_max_size); a packet is padded to the segment size only within the datagram's own budget (loss probes stay at 1200 bytes); a detected black hole purges every queued datagram that no longer fits (slices of poll_transmit / detect_lost_packets).",
          "Partial: PacketBuilder's own size arithmetic and GSO batching in poll_transmit are outside (DESIGN §4 C13)."),
- "C14": ("Token validation kernels: for a genuine token presented from a symbolic address at a symbolic time, 'validated' implies address (and port for Retry) equality, lifetime and (NEW_TOKEN) log acceptance, the reuse log being consulted with the token's own nonce / issue time; constant-time token comparison = equality; the client accepts the server's transport parameters only if initial_src_cid, original_dst_cid and retry_src_cid echo the connection IDs actually used (RFC 9000 7.3, all 20 CID bytes symbolic).",
+ "C14": ("Token validation kernels: for a genuine token presented from a symbolic address at a symbolic time, 'validated' implies address (and port for Retry) equality, lifetime and (NEW_TOKEN) log acceptance, the reuse log being consulted with the token's own nonce / issue time; constant-time token comparison = equality; the client accepts the server's transport parameters only if initial_src_cid, original_dst_cid and retry_src_cid echo the connection IDs actually used (RFC 9000 7.3, all 20 CID bytes symbolic). The client-side TokenMemoryCache hands out a stored token only by removing it from its queue (State::take on the MIR).",
          "Assumes AEAD authenticity (stub accepts exactly what it sealed); BloomTokenLog, TokenMemoryCache, Retry integrity tag, CID echo check are outside (DESIGN §4 C14)."),
- "C15": ("Three kernels of migration safety: Connection::migrate leaves the new path unvalidated with a pending challenge and the validation timer armed, and replaces the path to fall back to only by a path that was not itself awaiting validation (every connection state, MIR->SMT); a datagram from an address other than the established one is ignored (nothing credited, counted or processed) unless this is a server whose configuration permits migration - decided for every outcome of the address comparison and of remote_may_migrate; and a path created for a migrated peer starts unvalidated with zeroed amplification counters and nothing in flight, whatever the previous path's state.",
-         "Narrow: PATH_CHALLENGE/RESPONSE processing, the PathValidation timeout handler and the migration trigger in process_payload are Connection code with loops and are outside the claim."),
+ "C15": ("Five kernels of migration safety: Connection::migrate leaves the new path unvalidated with a pending challenge and the validation timer armed, and replaces the path to fall back to only by a path that was not itself awaiting validation (every connection state, MIR->SMT); a datagram from an address other than the established one is ignored (nothing credited, counted or processed) unless this is a server whose configuration permits migration - decided for every outcome of the address comparison and of remote_may_migrate; the migration trigger at the end of process_payload fires exactly for a non-probing packet from another address that has the highest packet number (slice from an arbitrary state); the PATH_RESPONSE arm validates the path exactly when the outstanding token comes back from the path's own address (slice); and a path created for a migrated peer starts unvalidated with zeroed amplification counters and nothing in flight, whatever the previous path's state.",
+         "Narrow: the PathValidation timeout handler restoring the previous path and PATH_CHALLENGE emission in populate_packet are Connection code with loops and are outside the claim."),
  "C16": ("DatagramState kernels with <= 1 queued datagram (oldest dropped first, window never exceeded, send-buffer accounting consistent) under Kani; and on the MIR of the real Connection methods: Datagrams::max_size = min(peer limit - 9, MTU - overhead - 9), Datagrams::send admits exactly what fits (Disabled / UnsupportedByPeer / TooLarge / Blocked verdict table), DatagramState::write emits a frame iff the frame as encoded fits.",
          "Partial: queues of two or more datagrams (VecDeque::retain / pop loops) exhaust CBMC; the call sites in populate_packet / loss handling and at-most-once under packet duplication (C01.a + handle_packet) are outside (DESIGN §4 C16, §9)."),
  "C17": ("Two kernels of the 0-RTT contract: when early data is REJECTED, StreamsState::zero_rtt_rejected followed by the server's fresh parameters leaves exactly the fresh connection / stream-count limits in force and no early byte accounted (every remembered and fresh value, every amount of early data); when it is ACCEPTED, TransportParameters::validate_resumption_from refuses fresh parameters that reduce any limit the client may already have relied on.",
